@@ -375,7 +375,9 @@ def rule_memo_key_last(ctx: Ctx) -> RuleResult:
             continue
         cfg = None
         keys = [n for n in fi.own_nodes() if isinstance(n, ast.Assign) and len(n.targets) == 1 and isinstance(n.targets[0], ast.Attribute) and n.targets[0].attr.startswith("_cache_") and isinstance(n.value, ast.Name) and n.value.id in fi.params]
-        vals = [n for n in fi.own_nodes() if isinstance(n, ast.Assign) and len(n.targets) == 1 and isinstance(n.targets[0], ast.Attribute) and isinstance(n.targets[0].value, ast.Name) and n.targets[0].value.id == fi.self_name and isinstance(n.value, ast.Call) and any(isinstance(x, ast.Name) and x.id in {k.value.id for k in keys} for x in ast.walk(n.value))]
+        key_attrs = {k.targets[0].attr for k in keys}
+        # the value(s) filed under the key: the other _cache_* attributes stored here (directly from the call or via a local)
+        vals = [n for n in fi.own_nodes() if isinstance(n, ast.Assign) and len(n.targets) == 1 and isinstance(n.targets[0], ast.Attribute) and isinstance(n.targets[0].value, ast.Name) and n.targets[0].value.id == fi.self_name and n.targets[0].attr.startswith("_cache_") and n.targets[0].attr not in key_attrs]
         if not keys or not vals:
             continue
         cfg = cfg_of(fi)
@@ -439,6 +441,7 @@ def run(ctx: Ctx):
 
 _T = "urwid/text_layout.py"
 MUTANTS = [
+    Mut("twin-text-memo-value-via-local", "urwid/widget/text.py", "Text._update_cache_translation", "        self._cache_translation = self.layout.layout(text, maxcol, self._align_mode, self._wrap_mode)\n        self._cache_maxcol = maxcol\n", "        translation = self.layout.layout(text, maxcol, self._align_mode, self._wrap_mode)\n        self._cache_translation = translation\n        self._cache_maxcol = maxcol\n", twin=True),
     Mut("text-memo-key-first", "urwid/widget/text.py", "Text._update_cache_translation", "        self._cache_translation = self.layout.layout(text, maxcol, self._align_mode, self._wrap_mode)\n        self._cache_maxcol = maxcol\n", "        self._cache_maxcol = maxcol\n        self._cache_translation = self.layout.layout(text, maxcol, self._align_mode, self._wrap_mode)\n", "ORDER|widget.text.Text._update_cache_translation|_update_cache_translation: memo key stored before its value"),
     Mut("ellipsis-width-measured-on-the-str", _T, "StandardTextLayout._calculate_trimmed_segments", "        ellipsis_width = calc_width(ellipsis_char, 0, len(ellipsis_char))\n        while", "        ellipsis_width = _get_width(ellipsis_string)\n        while", "PAIR|text_layout.StandardTextLayout._calculate_trimmed_segments|insert segment width"),
     Mut("ellipsis-inserted-without-width-test", _T, "StandardTextLayout._calculate_trimmed_segments", "if wrap == \"ellipsis\" and screen_columns > width and ellipsis_width:", "if wrap == \"ellipsis\" and screen_columns > width:", "GUARD|text_layout.StandardTextLayout._calculate_trimmed_segments"),
